@@ -62,24 +62,20 @@ func (q *IndexNotificationQueue) Run() {
 			return
 		case <-gc.C:
 			iter.Consume(q.items.Values(), func(h *heap.Heap[*item]) {
-				l := h.Len()
-				for i := 0; i < l; i++ {
-					elem := h.Slice[i]
-					if elem.ctx.Err() != nil {
-						// Reorder
-						elem.revision = 0
-						elem.waitCh <- elem.ctx.Err()
+				// Answer every expired waiter exactly once and drop it wherever it sits in the heap,
+				// a waiter left behind would be sent to again and block this loop on its full channel.
+				live := h.Slice[:0]
+				for _, elem := range h.Slice {
+					if err := elem.ctx.Err(); err != nil {
+						elem.waitCh <- err
+						continue
 					}
+					live = append(live, elem)
 				}
-				h.Fix(0)
-				for i := 0; i < l; i++ {
-					elem := h.Peek()
-					if elem.revision == 0 {
-						h.Pop()
-					} else {
-						break
-					}
+				for i := len(live); i < len(h.Slice); i++ {
+					h.Slice[i] = nil
 				}
+				h.Slice = heap.New(h.Less, live...).Slice
 			})
 		case it := <-q.add:
 			h, _ := q.items.Load(it.table)
